@@ -228,7 +228,7 @@ func vC01Run(out *vOut, rng *vRng, idx int, style int) {
 		case 3:
 			script = append(script, 1<<20)
 		default:
-			script = append(script, []int{1, 2, 100, 1000, 2047, 2048, 4096, 1 << 20}[rng.Intn(8)])
+			script = append(script, []int{1, 2, 100, 1000, 2047, 2048, 4096, 65536}[rng.Intn(8)])
 		}
 		if rng.Intn(25) == 0 {
 			script = append(script, -1)
@@ -343,7 +343,10 @@ func vC01Run(out *vOut, rng *vRng, idx int, style int) {
 				s.step(fmt.Sprintf("KWrapBufio %d %d %s %d", sz, n1, vData(stream, p[:k]), vErrEnum(err)))
 			}
 		case r < 96: // throttle: replaces the embedded Conn in place
-			burst := []int{1, 7, 512, 4096, 1 << 20}[rng.Intn(5)]
+			burst := []int{1, 7, 512, 4096, 65536}[rng.Intn(5)]
+			if L > 2100 && burst < 512 {
+				burst = 512 // keep the replay of the final drain cheap
+			}
 			s.cx.Conn = vThrConn{Conn: s.cx.Conn, burst: burst}
 			s.step(fmt.Sprintf("KThrottle %d", burst))
 		default: // tee: the new connection reads through an io.TeeReader over the old one
